@@ -87,11 +87,23 @@ void AddLineInfo(
         PNeu->Contents.FileName = FNum;
         PNeu->Contents.Space    = Space;
         PNeu->Contents.Address  = Address + z;
-        PNeu->Contents.Code
-                = ((CodeLen < z + 1) || (DontPrint)
-                   || ((LongWord)(z + 1) * sizeof(*WAsmCode) > (LongWord)MaxCodeLen))
-                        ? 0
-                        : WAsmCode[z];
+        /* one record per addressable unit: take that unit's value, do not
+           read (stale or uninitialized) buffer contents behind the code */
+
+        if ((CodeLen < z + 1) || (DontPrint)) {
+            PNeu->Contents.Code = 0;
+        } else {
+            switch (Granularity()) {
+            case 1:
+                PNeu->Contents.Code = BAsmCode[z];
+                break;
+            case 2:
+                PNeu->Contents.Code = WAsmCode[z];
+                break;
+            default:
+                PNeu->Contents.Code = DAsmCode[z] & 0xffff;
+            }
+        }
         if (z == 0) {
             PFirst = PNeu;
         }
